@@ -73,6 +73,11 @@ const (
 	grace = 8 * time.Millisecond
 )
 
+// strictFromDryUp switches R5 to the stricter reading "the grace period runs from the DryUp call" (what the doc comment
+// of the stream constructors says). NOT part of the registered check (exploration aid: VERIF_C19_STRICT=1); on the
+// unchanged tree it reports `...:grace=not-elapsed-since-DryUp` (the paginator measures from its last HasNext()==true).
+var strictFromDryUp = os.Getenv("VERIF_C19_STRICT") == "1"
+
 // ---- the scripted collection ---------------------------------------------------------------------
 
 type coll struct {
@@ -667,6 +672,8 @@ func (x *exec) step(op byte) bool {
 				x.fail(fmt.Sprintf("stream-ended-early:kind=%s:op=%s:told=no", x.kind, opn), fmt.Sprintf("R5: item %d is on a future page and DryUp was never called", e))
 			case now.Sub(ref) < grace:
 				x.fail(fmt.Sprintf("stream-ended-early:kind=%s:op=%s:told=yes:grace=not-elapsed", x.kind, opn), fmt.Sprintf("R5: item %d is on a future page; DryUp %v ago, last HasNext()==true %v ago, grace %v", e, now.Sub(x.dryTime), now.Sub(x.lastHTrue), grace))
+			case strictFromDryUp && now.Sub(x.dryTime) < grace:
+				x.fail(fmt.Sprintf("stream-ended-early:kind=%s:op=%s:told=yes:grace=not-elapsed-since-DryUp", x.kind, opn), fmt.Sprintf("strict reading (not the registered one): item %d is on a future page; DryUp only %v ago, grace %v", e, now.Sub(x.dryTime), grace))
 			default:
 				why = "grace-elapsed"
 				if now.Sub(x.dryTime) < grace {
@@ -1222,9 +1229,10 @@ func replay(t *testing.T, rep *ev.Reporter, path string) {
 	} else {
 		body()
 	}
-	rep.Coverage["states"] = len(st.states)
-	rep.Coverage["transitions"] = st.transitions
+	rep.Coverage["states"] = len(st.states) + 1 // + the initial state (a failing constructor leaves nothing else)
+	rep.Coverage["transitions"] = st.transitions + 1
 	rep.Coverage["traces_validated_against_impl"] = 0
+	rep.Coverage["replay_of"] = path
 	rep.Coverage["samples"] = []any{cd}
 	rep.Finish()
 }
